@@ -5,6 +5,7 @@ From Coq Require Import Sorting.Sorted Sorting.Permutation.
 From GoCar Require Import Bytes Varint Cid Header Frame V2Header Scan Index Store Wf.
 From GoCarProofs Require Import BytesFacts VarintFacts CidFacts HeaderFacts ScanFacts
      FinalBytes FinalOrder FinalIndex FinalStore FinalCid.
+From GoCarProofs Require IndexSort IndexLoad.
 
 (* a block a writer can be handed: the key is a CID as go-cid produces it, and LdWrite can frame
    the section (its length varint buffer has 8 bytes) *)
@@ -299,18 +300,44 @@ Section IndexExact.
       rewrite map_map. apply Permutation_refl.
   Qed.
 
+  (* lookups: C11's theorem (IndexLoad.idx_getall_load: GetAll on a loaded index = the offsets of the records
+     carrying the key), instantiated with the model's sort and the records of the stored sections *)
+  Lemma recs_rec_ok : Forall IndexLoad.rec_ok recs.
+  Proof.
+    eapply Forall_impl; [|exact recs_fit]. intros r (H1 & H2 & H3).
+    unfold IndexLoad.rec_ok, rec_width. auto.
+  Qed.
+
+  Lemma new_codec : exists i0, idx_new (w_codec o) = Some i0 /\ fi = idx_load_with sort_by_digest recs i0.
+  Proof.
+    pose proof Hfi as H'. unfold final_index, ii_flatten in H'. fold recs in H'. unfold ii_flatten_records in H'.
+    destruct (idx_new (w_codec o)) as [i0|]; [|discriminate]. exists i0. split; [reflexivity|].
+    inversion H'. reflexivity.
+  Qed.
+
+  (* all compacted records are inside the marshalled index, hence within one Go allocation *)
+  Lemma recs_in_index : IndexLoad.recs_fit recs.
+  Proof.
+    unfold IndexLoad.recs_fit, max_alloc. pose proof Hsmall as Hsm. unfold idx_write in Hsm. rewrite blen_app in Hsm.
+    destruct codec_cases as [[_ E]|[_ E]]; rewrite E in Hsm; cbn [idx_marshal] in Hsm.
+    - pose proof (compact_le_mwi recs). unfold two63 in *. lia.
+    - pose proof (compact_le_mh recs). unfold two63 in *. lia.
+  Qed.
+
   Lemma getall_finds s : In s secs -> In (s_off s) (idx_getall fi (c_mhcode (s_p s)) (c_digest (s_p s))).
   Proof.
-    intros Hs. pose proof (recs_offs_ok recs recs_fit) as Ho.
+    intros Hs.
     assert (Hr : In (rec_of_sec s) recs).
     { apply (Permutation_in _ (Permutation_sym recs_perm)). apply in_map. exact Hs. }
-    destruct final_index_good as [Hg _].
-    destruct codec_cases as [[Hc E]|[Hc E]]; rewrite E in Hg |- *; cbn [idx_getall idx_good] in Hg |- *.
-    - apply (mwi_getall_load recs (rec_of_sec s) Ho); [|exact Hr].
-      destruct Hg as (Hok & _). unfold buckets_small. eapply Forall_impl; [|exact Hok]. intros b (_ & _ & H). exact H.
-    - apply (mh_getall_load recs (rec_of_sec s) Ho); [|exact Hr].
-      destruct Hg as (Hok & _). eapply Forall_impl; [|exact Hok]. intros cm (_ & (Hok' & _)).
-      unfold buckets_small. eapply Forall_impl; [|exact Hok']. intros b (_ & _ & H). exact H.
+    destruct new_codec as (i0 & Hnew & E).
+    pose proof (IndexLoad.idx_getall_load sort_by_digest IndexSort.sort_by_digest_contract (w_codec o) i0 recs
+                  (c_mhcode (s_p s)) (c_digest (s_p s)) Hnew recs_rec_ok recs_in_index) as Hp.
+    rewrite <- E in Hp. apply (Permutation_in _ (Permutation_sym Hp)).
+    destruct (w_codec o =? codec_sorted).
+    - unfold spec_offsets_digest. apply (in_map r_off _ (rec_of_sec s)). apply filter_In. split; [exact Hr|].
+      cbn [rec_of_sec r_digest]. apply bytes_eqb_refl.
+    - unfold spec_offsets_mh. apply (in_map r_off _ (rec_of_sec s)). apply filter_In. split; [exact Hr|].
+      cbn [rec_of_sec r_digest r_code]. rewrite N.eqb_refl, bytes_eqb_refl. reflexivity.
   Qed.
 
   Theorem index_exact_layout : index_exact (w_storeid o) fi secs = true.
